@@ -49,7 +49,7 @@ def run_manager(eng, K, T_max=None, D_max=0, lat_max=2, life_max=2, max_loss=Non
     MC.datetime = CT.fake_datetime_module(now_units, SCALE)
     T = D = S = None
     if S_max is not None:
-        S = 1 + eng.pick(S_max)          # close() right after the S-th handle the loop runs
+        S = eng.pick(S_max + 1)          # close() right after the S-th handle the loop runs; S = 0: before the loop runs anything
     if T_max is not None:
         T = param("T", 0, T_max)
         D = eng.pick(D_max + 1) if D_max else 0
@@ -77,7 +77,9 @@ def run_manager(eng, K, T_max=None, D_max=0, lat_max=2, life_max=2, max_loss=Non
         try:
             trace, transports, task, mgr = CT.drive(MC, loop, P, K, CutPath, sched, now_units, configure)
             try:
-                with CT.after_nth_handle(S, CT.drive.last_close) as counter:
+                if S == 0:
+                    CT.drive.last_close()          # close() right after create_task(connect_loop()), before its first step
+                with CT.after_nth_handle(S if S else None, CT.drive.last_close) as counter:
                     res = loop.run()
             except CutPath:
                 cut = True
